@@ -198,6 +198,7 @@ func pendingSeeds(fn *ssa.Function, nt *types.Named, field string) []ssa.Value {
 // buffered channel breaks both: what is still queued when the session ends is dropped, and select takes from two
 // non-empty queues in random order (the email event overtakes the commands that produced it).
 func c04ReporterQueues(c *Ctx) {
+	c.Explanation += " Channels drained by the smtp reporter in one select next to its termination arm are unbuffered."
 	p := c.P
 	const rule = "reporter-handover-synchronous"
 	var makesOf func(v ssa.Value, depth int) ([]*ssa.MakeChan, bool)
@@ -241,14 +242,36 @@ func c04ReporterQueues(c *Ctx) {
 			if b := freeVarBinding(x); b != nil {
 				return makesOf(b, depth+1)
 			}
+		case *ssa.Parameter:
+			// the reporter started as a function/method with its channels as arguments: what every call site passes
+			fn := x.Parent()
+			idx := -1
+			for i, q := range fn.Params {
+				if q == x {
+					idx = i
+				}
+			}
+			var out []*ssa.MakeChan
+			sites := 0
+			for _, g := range p.FuncsIn("services/smtp") {
+				for _, call := range Calls(g) {
+					if call.Common().StaticCallee() != fn || idx >= len(call.Common().Args) {
+						continue
+					}
+					sites++
+					m, ok := makesOf(call.Common().Args[idx], depth+1)
+					if !ok {
+						return nil, false
+					}
+					out = append(out, m...)
+				}
+			}
+			return out, sites > 0 && len(out) > 0
 		}
 		return nil, false
 	}
 	n := 0
 	for _, fn := range p.FuncsIn("services/smtp") {
-		if fn.Parent() == nil {
-			continue // reporters are goroutine closures of Handle
-		}
 		for _, b := range fn.Blocks {
 			for _, in := range b.Instrs {
 				sel, ok := in.(*ssa.Select)
